@@ -118,6 +118,17 @@ def _space_for(rng, algo, negative, gp):
     return gen.gen_space(rng, n, n, kinds=['BOOL'])
   if negative and algo == 'CMA_ES' and rng.random() < 0.3:
     return gen.gen_space(rng, 1, 1, kinds=['DOUBLE'])
+  if negative and algo in ('BOCS', 'HARMONICA') and rng.random() < 0.6:
+    # partly boolean: a space these designers do not document. Refusing it is
+    # fine, answering with values outside the non-boolean domains is not.
+    nb = rng.choice([1, 2, 3])
+    desc = gen.gen_space(rng, nb, nb, kinds=['BOOL'])
+    other = gen.gen_space(rng, 1, 2, kinds=['DOUBLE', 'INTEGER', 'DISCRETE', 'CATEGORICAL'])
+    for j, p in enumerate(other):
+      p['name'] = f'nb{j}_' + p['name']
+    desc = desc + other
+    rng.shuffle(desc)
+    return desc
   return gen.gen_space(rng, 1, 6, **kw)
 
 
@@ -223,6 +234,13 @@ def gen_case(rng, algo, route, tier, gp=False, name=None):
   opts = _opts_for(rng, algo, route, len(desc), gp, tier)
   mcls = rng.choice(['uniform', 'uniform', 'constant', 'big', 'integer'])
   hist = _history_for(rng, algo, desc, len(metrics), route, gp, mcls)
+  if negative and algo in ('BOCS', 'HARMONICA') and any(p['kind'] != 'BOOL' for p in desc) and any(
+      p['kind'] == 'BOOL' for p in desc):
+    # enough clean history to get past the random warm-up into the model phase
+    for e in hist:
+      e['s'] = 'C'
+    while len(hist) < 12:
+      hist.append({'p': gen.sample_point(rng, desc), 's': 'C', 'm': _metric_values(rng, mcls, len(metrics))})
   single = algo in ('BOCS', 'HARMONICA')
   rounds = []
   if gp:
@@ -860,8 +878,18 @@ def run_case(ctx, case, index=None):
 # ---------------------------------------------------------------------------
 # default / centre seeding, directly
 # ---------------------------------------------------------------------------
+EXTREME_BOUNDS = [(1e-200, 1e-150), (1e150, 1e200), (1e-300, 1e-10), (1e10, 1e300), (-1e300, 1e300),
+                  (1e-310, 1e-305), (5e-324, 1.0)]
+
+
 def check_default_seed(ctx, rng, index):
   desc = gen.gen_space(rng, 1, 6)
+  if rng.random() < 0.3:
+    lo, hi = rng.choice(EXTREME_BOUNDS)
+    scale = rng.choice([None, 'LINEAR', 'LOG', 'REVERSE_LOG']) if lo > 0 else rng.choice([None, 'LINEAR'])
+    desc.insert(rng.randint(0, len(desc)), {'name': f'xtr{index}', 'kind': 'DOUBLE', 'lo': lo, 'hi': hi,
+                                            'scale': scale, 'default': None})
+    ctx.count('default_seed_extreme_magnitude_spaces')
   case = {'route': 'designer', 'algo': 'DEFAULT_SEED', 'name': 'DEFAULT_SEED',
           'desc': desc, 'metrics': [{'name': 'obj', 'goal': 'MAXIMIZE'}],
           'opts': {}, 'history': [], 'rounds': [], 'mcls': 'uniform', 'seed': 0,
@@ -1021,6 +1049,26 @@ def run_shard(ctx):
         ctx.sample({k: case[k] for k in ('route', 'name', 'desc', 'opts', 'rounds')})
     if ctx.nshards > 1:
       return
+  # fixed witness class: the boolean-only designers on a partly boolean space with
+  # enough history to leave the random warm-up (refuse, or answer inside the domains)
+  for w, algo in enumerate(['HARMONICA', 'BOCS', 'HARMONICA', 'BOCS']):
+    if w % n_cheap != (cheap_rank or 0) or (w >= 2 and quick):
+      continue
+    rng = ctx.rng(w, 'mixed-bool-witness')
+    case = gen_case(rng, algo, ['designer', 'policy'][w // 2], ctx.tier)
+    case['negative'] = True
+    case['desc'] = [
+        {'name': 'b0', 'kind': 'BOOL', 'values': ['False', 'True'], 'scale': None, 'default': None},
+        {'name': 'lr', 'kind': 'DOUBLE', 'lo': 0.0, 'hi': 1.0, 'scale': None, 'default': None},
+        {'name': 'b1', 'kind': 'BOOL', 'values': ['False', 'True'], 'scale': None, 'default': None},
+        {'name': 'act', 'kind': 'CATEGORICAL', 'values': ['relu', 'tanh'], 'scale': None, 'default': None}]
+    case['metrics'] = case['metrics'][:1]
+    case['history'] = [{'p': gen.sample_point(rng, case['desc']), 's': 'C', 'm': [rng.uniform(-1, 1)]}
+                       for _ in range(12)]
+    case['rounds'] = [{'count': 1, 'fates': ['C'] * 8, 'extra': [], 'late': False} for _ in range(3)]
+    case['index'] = ['mixed-bool-witness', w]
+    run_case(ctx, case)
+    ctx.count('mixed_boolean_witness_cases_run')
   n_cases = 3400 if quick else 90000
   n_seed = 600 if quick else 12000
   for i in range(n_seed):
